@@ -55,6 +55,12 @@ SB_OP(bld)
                 return;
         } else if (!inited) {
             add(out, "noinit");
+        } else if (k == 'J') {
+            // a refused init (invalid scale) on a live builder: it must not change anything
+            sb_error_t rc = sb_trajectory_builder_init(&b, (uint8_t)strtoul(a[0].c_str(), nullptr, 10), (uint8_t)strtoul(a[1].c_str(), nullptr, 10));
+            add(out, std::to_string((int)rc) + ":" + bufhex(&b));
+            if (rc == SB_SUCCESS)
+                return; // not generated: a successful re-init would abandon the old buffer
         } else if (k == 'S') {
             sb_error_t rc = sb_trajectory_builder_set_start_position(&b, vec_of(a, 0));
             add(out, std::to_string((int)rc) + ":" + bufhex(&b));
